@@ -96,6 +96,7 @@ class PDU(Type[PDUContent]):
             exception = ErrorResponse.construct(
                 error_status.value, offending_oid or ObjectIdentifier()
             )
+            exception.request_id = request_id.value
             raise exception
 
         values, nxt = decode(data, nxt, enforce_type=Sequence)
